@@ -197,10 +197,14 @@ func IntBytes(v int64) []byte {
 func Int(v int64) *Node  { return Prim(Universal, TagInteger, IntBytes(v)) }
 func Enum(v int64) *Node { return Prim(Universal, TagEnumerated, IntBytes(v)) }
 
-// ParseIntBytes decodes a two's-complement integer of 1..8 bytes.
+// ParseIntBytes decodes a two's-complement integer of 1..8 bytes in its minimal form (X.690 8.3.2: the first nine
+// bits are neither all zero nor all one).
 func ParseIntBytes(b []byte) (int64, error) {
 	if len(b) == 0 || len(b) > 8 {
 		return 0, fmt.Errorf("sber: integer of %d bytes", len(b))
+	}
+	if len(b) > 1 && ((b[0] == 0x00 && b[1]&0x80 == 0) || (b[0] == 0xff && b[1]&0x80 != 0)) {
+		return 0, fmt.Errorf("sber: integer % x is not minimally encoded", b)
 	}
 	var v int64
 	if b[0]&0x80 != 0 {
